@@ -436,13 +436,13 @@ func TestC06(t *testing.T) {
 	vcore.E.SetExtra("enumerated_histories", fmt.Sprintf("all %d event sequences of length 1..%d over the 12-letter alphabet (striped over %d shard(s); this shard ran %d)", idx, depth, vcore.Cfg.Shards, count))
 
 	// (b) real retention window (package rxwindow)
-	vcore.Check(t, vcore.N(30, 150), func(rt *rapid.T) {
+	vcore.Check(t, vcore.N(30, 300), func(rt *rapid.T) {
 		runWindow(rt, rxwindow.Gen(rt), true)
 	})
 
 	// random part
 	kinds := []string{"hb", "assoc", "est", "est", "estbad", "mod", "mod", "modunk", "del", "expire", "expire"}
-	vcore.Check(t, vcore.N(300, 2000), func(rt *rapid.T) {
+	vcore.Check(t, vcore.N(300, 6000), func(rt *rapid.T) {
 		n := rapid.IntRange(2, 40).Draw(rt, "n")
 		evs := []Ev{{"assoc", 0, 77}}
 		for i := 0; i < n; i++ {
